@@ -467,7 +467,7 @@ def optimistic(chk, w, split):
         t = blk.term
         if blk.cleanup or t.kind != "switch" or t.discr is None or t.discr.kind not in ("copy", "move"):
             continue
-        c = _inline(w, _norm(du.origin(t.discr)))
+        c = closures.inline_fns(w, _norm(du.origin(t.discr)))
         if c[0] != "bin":
             continue
         sh = defuse.show(c)
